@@ -173,6 +173,25 @@ func c11StormSub(ctx *Ctx, k int) error {
 		}
 	}()
 
+	// status poller: what a client following the job does - GetRunningJobs / GetRunningJob as fast as
+	// it can while slots are taken and given back (under -race every poll between a return and the
+	// next borrow is decisive; without it a reader of shared state meets a writer sooner or later)
+	var statusPolls int64
+	pwg.Add(1)
+	go func() {
+		defer pwg.Done()
+		for atomic.LoadInt32(&stop) == 0 {
+			for i := 0; i < 20; i++ {
+				for _, j := range h.sched.GetRunningJobs() {
+					_ = j.JobID
+				}
+				_ = h.sched.GetRunningJob(id)
+			}
+			atomic.AddInt64(&statusPolls, 20)
+			time.Sleep(50 * time.Microsecond)
+		}
+	}()
+
 	r := rand.New(rand.NewSource(ctx.Seed*1000 + int64(k)))
 	var inflight, maxInflight int64
 	var nEvent, nRunJob, runJobOK, runJobBusy, runJobErr int64
@@ -401,7 +420,7 @@ func c11StormSub(ctx *Ctx, k int) error {
 	o.Stat("storm.RunJob_already_running", runJobBusy)
 	o.Stat("storm.RunJob_error", runJobErr)
 	o.Stat("storm.runs_started", int64(started))
-	o.Stat("storm.status_polls", polls)
+	o.Stat("storm.status_polls", polls+statusPolls)
 	o.Stat("storm.conservation_checks", consChecks)
 	o.Stat(fmt.Sprintf("storm.cases:gomaxprocs=%d", cs.GOMAXPROCS), 1)
 	if os.Getenv("GORACE") != "" {
